@@ -12,11 +12,6 @@ sys.path.insert(0, os.path.dirname(os.path.abspath(__file__)))
 import vlib  # noqa: E402
 from vlib import match  # noqa: E402
 
-GENERIC = ["true", "0", "1", "-5", "5", "0x5", "abc", "", "1.5", "hello", "99999999999999999999", "ell",
-           "^h.*o$", "(a|b", "l{2}", "T", "0b101", "1_0", "-0", "1e400", "NaN", "k", "x"]
-OPS_V = ["==", "!=", "in", "notin", "matches", "notmatches"]
-OPS_E = ["empty", "notempty"]
-
 WORLD_CFGS = {
     "scalars": [0, 2],
     "containers": [0, 4],
@@ -25,65 +20,32 @@ WORLD_CFGS = {
     "tagged": [0, 1, 12, 8],
     "wrapped": [0, 9, 10, 11],
 }
+DEPTH = {"scalars": 2, "containers": 2, "records": 3, "json": 3, "tagged": 3, "wrapped": 3}
 
 
 def build_world(name, data, tier, rnd):
     docs = data["docs"]
-    paths = []
-    depth = 3 if name in ("records", "json", "tagged", "wrapped") else 2
-    for d in docs:
-        vlib.walk_paths(d["av"], [], depth, paths)
-    # group the literal texts worth trying by path
-    bypath = {}
-    for p, node in paths:
-        if not p:
-            continue
-        key = tuple(p)
-        s = bypath.setdefault(key, set())
-        if node is not None:
-            s.update(vlib.own_text(node))
-            if node["k"] == "list":
-                for e in node["v"][:3]:
-                    s.update(vlib.own_text(e))
-            if node["k"] == "map":
-                for e in node["v"][:2]:
-                    kt = vlib.key_text(e["key"])
-                    if kt is not None:
-                        s.add(kt)
-    generic = GENERIC if tier == "thorough" else GENERIC[:15]
-    atoms = []
-    for key in sorted(bypath):
-        lits = list(generic) + sorted(bypath[key] - set(generic))
-        for op in OPS_V:
-            for l in lits:
-                atoms.append(match(key, op, l))
-        for op in OPS_E:
-            atoms.append(match(key, op))
+    quick = tier == "quick"
+    atoms, keys = vlib.atoms_for_docs(docs, DEPTH[name], rnd, per_path=5 if quick else None)
     # bodies for quantifiers: selectors rooted at the binding names
-    body = []
-    for root in (["v"], ["k"], ["v", "id"], ["v", "x"], ["v", "0"], ["k", "x"], ["v", "X"], ["v", "Secret"], ["v", "name"]):
-        for op, l in (("==", "1"), ("==", "a"), ("!=", "b"), ("in", "a"), ("empty", ""), ("matches", "^[a-z]$"), ("==", "0")):
-            body.append(match(root, op, l if op != "empty" else ""))
-    body.append(match(["top"], "==", "5"))
+    body = [match(["v"], "==", "1"), match(["v"], "==", "a"), match(["v"], "!=", "b"), match(["k"], "==", "a"), match(["k"], "==", "0"),
+            match(["v", "id"], "==", "1"), match(["v", "x"], "==", "1"), match(["v", "V"], "==", "2"), match(["v", "0"], "==", "1"),
+            match(["v", "X"], "==", "1"), match(["v", "name"], "==", "n1"), match(["v", "Secret"], "==", "s3cr3t"),
+            match(["v"], "in", "a"), match(["v"], "empty"), match(["k"], "matches", "^[a-z]$"), match(["top"], "==", "5")]
     b0 = len(atoms)
     atoms += body
-    # quantifier shells over every collection-ish path (and a few that are not)
     colls = []
-    cpaths = [k for k in sorted(bypath) if len(k) <= 2]
+    cpaths = [k for k in keys if len(k) <= 2]
     rnd.shuffle(cpaths)
-    for key in cpaths[: (2 if tier == "quick" else 8)]:
+    for key in cpaths[: (3 if quick else 10)]:
         for op in ("any", "all"):
             for mode, n1, n2 in (("default", "v", ""), ("index", "k", ""), ("value", "", "v"), ("both", "k", "v")):
                 colls.append({"op": op, "sel": {"ty": "bexpr", "path": list(key)}, "mode": mode, "n1": n1, "n2": n2})
     colls.append({"op": "any", "sel": {"ty": "bexpr", "path": list(cpaths[0])}, "mode": "both", "n1": "v", "n2": "v"})
-    # combination pool: a sample of ordinary atoms plus the quantifier bodies
     idx = list(range(b0))
     rnd.shuffle(idx)
-    ncombo = 14 if tier == "quick" else 40
-    combo = sorted(idx[:ncombo] + list(range(b0, len(atoms))))
-    maxn = 3
-    cfgs_all = data["cfgs"]
-    return vlib.make_world([name], docs, cfgs_all, WORLD_CFGS[name], atoms, combo, colls, maxn)
+    combo = sorted(idx[:(10 if quick else 40)] + list(range(b0, len(atoms))))
+    return vlib.make_world([name], docs, data["cfgs"], WORLD_CFGS[name], atoms, combo, colls, 3)
 
 
 def main():
@@ -92,43 +54,24 @@ def main():
     worlds = ["scalars", "containers", "records", "json", "tagged", "wrapped"]
     if os.environ.get("VERIF_WORLDS"):
         worlds = os.environ["VERIF_WORLDS"].split(",")
-    total_evals = 0
     by = {}
     skipped = 0
-    nontrivial = set()
     for wn in worlds:
-        p = vlib.harness(["data", "-worlds", wn])
-        data = json.loads(p.stdout)
+        data = json.loads(vlib.harness(["data", "-worlds", wn]).stdout)
         world = build_world(wn, data, chk.tier, rnd)
-        wd = vlib.sub("c01-" + wn)
-        cfg = 'SPECIFICATION Spec\nCONSTANT WorldFile = "world.json"\nINVARIANT BuilderOK\nCHECK_DEADLOCK FALSE\n'
-        r = vlib.run_tlc("Cases", cfg, wd, files={"world.json": world}, timeout=3000)
-        chk.add_tlc(r)
-        if r.violation:
-            raise vlib.Infra("model invariant %s violated in world %s" % (r.violation, wn))
-        with open(os.path.join(wd, "cases.ndjson"), "w") as fh:
-            for c in r.cases:
-                fh.write(json.dumps(c) + "\n")
-        vlib.harness(["replay", "-world", os.path.join(wd, "world.json"), "-cases", os.path.join(wd, "cases.ndjson"),
-                      "-out", os.path.join(wd, "replay.json")])
-        res = json.load(open(os.path.join(wd, "replay.json")))
-        vlib.log("world %s: %d atoms, %d trees, %d evaluations, outcomes %s, skipped %d %s" % (
-            wn, len(world["atoms"]), res["cases"], res["evals"], res["byoutcome"], res["skipped"], res["skipwhy"]))
-        total_evals += res["evals"]
+        res = vlib.run_world(chk, "c01-" + wn, world)
+        chk.cov["evaluations"] += res["evals"]
         skipped += res["skipped"]
         for k, v in res["byoutcome"].items():
             by[k] = by.get(k, 0) + v
-        for m in res["mismatches"] or []:
+        for m in res["mismatches"]:
             if m.get("text") == "...more":
                 continue
             chk.violation({"world": wn, "expr": m["text"], "doc": m["doc"], "cfg": m["cfg"], "spec": m["want"],
                            "impl": m["got"]["o"], "detail": m["got"].get("err") or m["got"].get("panic", "")})
-        for s in res["samples"] or []:
+        for s in res["samples"]:
             chk.sample(s)
         chk.cov["traces_validated_against_impl"] += res["cases"] - res["skipped"]
-        if res["evals"] == 0:
-            raise vlib.Infra("world %s: nothing was evaluated" % wn)
-    chk.cov["evaluations"] = total_evals
     chk.cov["distinct_nontrivial"] = by.get("T", 0) + by.get("F", 0)
     chk.notes["rule"] = ("every tree TLC builds (all atoms singly; <=3-node combinations over a seeded pool; quantifier shells in "
                          "all four binding modes) x every configuration and document of the world; non-trivial = the real "
